@@ -558,7 +558,41 @@ def run_case(M, check, case, tmpdir):
             return True
     for t in texts[ti:ti + 2] or texts[:1]:
         verify(t)
+    if check in ('C11', 'C12', 'C13') and not case.get('big'):
+        _temporaries(M, c, texts, verify)
     return True
+
+
+def _fresh(t):
+    # a new str object equal to t whose construction allocates no other str of t's size class
+    return t.encode('utf-32-le', 'surrogatepass').decode('utf-32-le', 'surrogatepass')
+
+
+def _temporaries(M, c, texts, verify):
+    """One long-lived instance examines run-time-built texts nobody else references: a text without any match
+    (nothing keeps it alive afterwards) and then an equal-length text with matches, which CPython very often
+    allocates at the address just freed. A result remembered by identity of the text shows here (round 8, C13)."""
+    for t in texts[:3]:
+        n = len(t)
+        if n < 2 or c.search(t) is None:
+            continue
+        top = max(t)
+        fills = ['\u2042', '\u2e3b'] if '\xff' < top <= '\uffff' else ['\U0001f600'] if top > '\uffff' else ['~', ' ', 'q', '\x01', '0']
+        fill = next((f for f in fills if c.search(f * n) is None), None)
+        if fill is None:
+            M.counts['temp-no-filler'] += 1
+            continue
+        for _ in range(3):
+            tmp = fill * n
+            seen = id(tmp)
+            verify(tmp)
+            del tmp
+            t2 = _fresh(t)
+            M.counts['temp-pairs'] += 1
+            if id(t2) == seen:
+                M.counts['temp-address-reused'] += 1
+            verify(t2)
+            del t2
 
 
 def _history_op(M, check, p, pat, c, op, texts, ti, rnd, ctxbase, verify):
